@@ -95,6 +95,9 @@ def run(chk):
             status = {'version': {'name': ver_name}, 'description': 'x'}
         else:
             status = {'version': {'name': ver_name, 'protocol': beh[1]}, 'description': {'text': 'x'}}
+            if rng.random() < 0.12:
+                # a long message of the day (within the 32767-character limit of a protocol string, far beyond it in bytes)
+                status['description'] = {'text': rng.choice(['\u4e16\u754c' * 5600, 'x' * 32000, '\U0001f600' * 7000])}
         chunks = [] if status is None else [proto.frame(0, proto.string(json.dumps(status)))]
         servers = [sim.Server([], end='idle'), sim.Server([], end='idle'), sim.Server([], end='idle')]
 
@@ -182,10 +185,42 @@ def run(chk):
                 what = 'outcome %s; an empty status object must be rejected as invalid' % (o['outcome'],)
         if what:
             chk.violation('negotiate', 'negotiate:%s' % (hash(repr(case)) % 10 ** 8), {'case': case, 'observed': o, 'expected': r}, 'allowed=%s initial=%s server=%s: %s' % (case['allowed'], ini, list(beh), what))
+    callers_collection(chk)
     status_queries(chk)
     chk.sample('negotiate', {'allowed': [47, 757], 'server': ['proto', 47], 'conns': obs[0].get('conns')}, k=1)
     chk.assumptions += ['json.loads is library code: the model starts from the shape of the parsed status object; the harness generates the text',
                         'the clock (timeit.default_timer) is replaced by a deterministic monotone fake']
+
+
+def callers_collection(chk):
+    """The collection passed as allowed_versions stays the caller's: a negotiation does not change it, and a second Connection
+    made from the same collection negotiates again (status query first) instead of inheriting the first one's outcome."""
+    from minecraft.networking.connection import Connection
+    for mk in (set, list, lambda x: dict.fromkeys(x)):
+        for reply in (340, 47):
+            given = mk([47, 340, 757])
+            before = sorted(given)
+            status = {'version': {'name': 'x', 'protocol': reply}, 'description': 'x'}
+            conns = []
+            for k in range(2):
+                servers = [sim.Server([proto.frame(0, proto.string(json.dumps(status)))], end='idle'), sim.Server([], end='idle'), sim.Server([], end='idle')]
+                net = sim.Net(servers).install()
+                try:
+                    conn = Connection('example.org', 25570, username='user', allowed_versions=given)
+                    conn.connect()
+                    net.run_threads(conn)
+                    conns.append([parse_conn(None, b''.join(s_.sends))[:4] for s_ in servers if s_.sends])
+                finally:
+                    net.uninstall()
+            chk.count('callers-collection', [type(given).__name__, reply], True)
+            exp = [[757, 'example.org', 25570, 1], [reply, 'example.org', 25570, 2]]
+            what = None
+            if sorted(given) != before:
+                what = 'the %s passed as allowed_versions was changed from %s to %s' % (type(given).__name__, before, sorted(given))
+            elif conns != [exp, exp]:
+                what = 'two connections made from the same %s behaved as %s; each should query the status and then log in with %d' % (type(given).__name__, conns, reply)
+            if what:
+                chk.violation('callers-collection', 'callers-collection:%s:%d' % (type(given).__name__, reply), {'case': {'allowed_versions': before, 'container': type(given).__name__, 'server_protocol': reply}, 'observed': what}, what)
 
 
 def shape(rng, items):
